@@ -25,7 +25,6 @@ contract(M + 'match_scope', params=dict(self=CSSMATCH, el=NODE), returns=BOOL, e
 # sub-matchers not (yet) verified against a defined spec: their contracts are modular placeholders whose meaning is
 # an abstract spec function; the evidence lists them as "proved modulo" edges
 for fn, params, spec in [
-    ('match_indeterminate', dict(self=CSSMATCH, el=NODE), 'sem_indeterminate(self, el)'),
     ('match_dir', dict(self=CSSMATCH, el=NODE, directionality=FLAGS), 'sem_dir(self, el, directionality)'),
 ]:
     contract(M + fn, params=params, returns=BOOL, ensures=[f'result == {spec}'], opaque=True, properties=['C01'])
@@ -79,6 +78,41 @@ RELWF = ["ir_wf_list(relation)", "len(relation.selectors) >= 1",
          "sel_is_null(relation.selectors[0]) or is_none(relation.selectors[0].rel_type) or rel_ok(relation.selectors[0].rel_type)"]
 contract(M + 'match_relations', params=REL, returns=BOOL, requires=['el is not None', 'is_tag(el)'] + RELWF + WF,
          ensures=['result == sem_rel(self, self.namespaces, self.iframe_restrict, el, relation)'], properties=['C01'])
+
+# :indeterminate (C17): the owner of the radio group, the memo table of verdicts per (owner, name), the scan of the group
+_IC = 'self.cached_indeterminate_forms'
+_ILAST = f'{_IC}[len(old({_IC}))]'
+_DESC = 'desc_spec(self, form, True, True)'
+contract(M + 'match_indeterminate.get_parent_form', params=dict(self=CSSMATCH, el=NODE), returns=NODE,
+         ensures=['result == group_scope(self, el)'], locals=dict(form=NODE, parent=NODE, last_parent=NODE),
+         loops={1: dict(invariant=['form is None', 'scope_up(self, parent) == group_scope(self, el)'],
+                        decreases='0 if parent is None else depth(parent) + 1')},
+         properties=['C17'])
+contract(M + 'match_indeterminate', params=dict(self=CSSMATCH, el=NODE), returns=BOOL, requires=['el is not None'],
+         # the compound that carries SEL_INDETERMINATE also carries :not([checked]), evaluated before this call (structural obligations
+         # C17.S-indet-guard, C17.S-hub-order): the element asking is not itself a checked member of its group
+         assumes=["not checked_member(self, el, attr_by_name(el, 'name', None), group_scope(self, el))"],
+         ensures=['result == sem_indeterminate(self, el)'],
+         locals=dict(form=NODE, name=OPT_ATTRVAL, tag_name=OPT_STR),
+         loops={1: dict(invariant=['not found_form', 'not match', 'form == group_scope(self, el)', 'form is not None',
+                                   f'_seq1 == {_IC}', 'indet_cache_ok(self, _seq1, _i1)']),
+                2: dict(var='child', assume_elem=['child is not None and is_tag(child)'],
+                        invariant=['not checked', 'not match', 'form == group_scope(self, el)', 'form is not None', f'_seq2 == {_DESC}',
+                                   'group_checked(self, form, name, _seq2, _i2, el) == group_checked(self, form, name, _seq2, 0, el)',
+                                   f'{_IC} == old({_IC})']),
+                3: dict(assume_elem=["implies((k if self.is_xml else ascii_lower(k)) == 'type', is_str_val(v))"],
+                        invariant=['not checked', '_seq3 == npairs(child)',
+                                   'radio_scan(self, _seq3, _i3, name, is_radio, check, has_name, same(group_scope(self, child), form)) == '
+                                   'radio_scan(self, _seq3, 0, name, False, False, False, same(group_scope(self, child), form))'])},
+         uses=[dict(fact=f'implies(indet_cache_ok(self, old({_IC}), 0) and len({_IC}) == len(old({_IC})) + 1 and '
+                         f'{_IC} == old({_IC}) + [{_ILAST}] and {_ILAST}[0] is not None and '
+                         f'{_ILAST}[2] == (not group_checked(self, {_ILAST}[0], {_ILAST}[1], desc_spec(self, {_ILAST}[0], True, True), 0, None)), '
+                         f'indet_cache_ok(self, {_IC}, 0))',
+                    by=['lemma.C04_indet_snoc_base', 'lemma.C04_indet_snoc_step']),
+               dict(fact="implies(form is not None and not checked_member(self, el, name, form), "
+                         f"group_checked(self, form, name, {_DESC}, 0, el) == group_checked(self, form, name, {_DESC}, 0, None))",
+                    by=['lemma.C17_exclude_base', 'lemma.C17_exclude_step'])],
+         properties=['C17', 'C04', 'C01'])
 
 # :lang() (C13): the inherited language, then the memo table of content-language pragmas, then the pragma itself
 OPT_STR_ = TOpt(STR)
